@@ -41,7 +41,7 @@ theorem pkB_ge (w : Nat) (b : B) : ∀ (o : Nat), o ≤ pkB w o b := by
   | or l r ihl _ => intro o; have := ihl o; simp only [pkB]; omega
 
 section
-variable {p : Prog} {ck : Bool} {B : Nat}
+variable {p : Prog} {ck : Bool} {B : Nat} {dA : Nat}
 
 theorem br_reach (lib : Placed p B) (a : Nat) (m : Mem) (t : Option Nat) (h : PlacedAt p a (brCode t))
     (ht : ∀ x, t = some x → x < 256 ^ p.w) :
@@ -61,11 +61,11 @@ theorem br_reach (lib : Placed p B) (a : Nat) (m : Mem) (t : Option Nat) (h : Pl
 stack, right into `r1`, then the left fetched into `r0`) -/
 theorem operands_ok (lib : Placed p B) (Γ : Gam) (env : Env) (F D : Nat) (l r : E) (pc o : Nat) (m : Mem)
     (c1 : List Instr) (vl : Opd) (p1 : Bool)
-    (hcl : cE (cxOf p ck B) Γ pc o (cxOf p ck B).r0 l (!isSafe r) = (c1, vl, p1))
+    (hcl : cE (cxOf p ck B dA) Γ pc o (cxOf p ck B dA).r0 l (!isSafe r) = (c1, vl, p1))
     (c2 : List Instr) (vr0 : Opd) (p2 : Bool)
-    (hcr : cE (cxOf p ck B) Γ (pc + c1.length) (if p1 = true then o + (cxOf p ck B).w else o) (cxOf p ck B).r1 r false = (c2, vr0, p2))
-    (c2' : List Instr) (vr : Opd) (hg2 : getOp (cxOf p ck B) (cxOf p ck B).r1 vr0 = (c2', vr))
-    (c3 : List Instr) (vl' : Opd) (hg3 : getOp (cxOf p ck B) (cxOf p ck B).r0 vl = (c3, vl'))
+    (hcr : cE (cxOf p ck B dA) Γ (pc + c1.length) (if p1 = true then o + (cxOf p ck B dA).w else o) (cxOf p ck B dA).r1 r false = (c2, vr0, p2))
+    (c2' : List Instr) (vr : Opd) (hg2 : getOp (cxOf p ck B dA) (cxOf p ck B dA).r1 vr0 = (c2', vr))
+    (c3 : List Instr) (vl' : Opd) (hg3 : getOp (cxOf p ck B dA) (cxOf p ck B dA).r0 vl = (c3, vl'))
     (hpl : PlacedAt p pc (c1 ++ c2 ++ c2' ++ c3)) (hB : pc + (c1 ++ c2 ++ c2' ++ c3).length ≤ B)
     (fr : Fr p m F D) (hvars : VarsOK p.w Γ env m F o)
     (hbl : boundE (Γ.map Prod.fst) l = true) (hbr : boundE (Γ.map Prod.fst) r = true)
@@ -81,7 +81,7 @@ theorem operands_ok (lib : Placed p B) (Γ : Gam) (env : Env) (F D : Nat) (l r :
   have h64 := mul_w_lt_pow p.w hw
   have hroom := fr.room; have htop := fr.top
   have hoD : o ≤ D := by have := pkE_ge p.w l o (!isSafe r); omega
-  have hlocL := cE_loc (cxOf p ck B) Γ env m F D l pc o (cxOf p ck B).r0 (!isSafe r) hvars hbl hpkl ho
+  have hlocL := cE_loc (cxOf p ck B dA) Γ env m F D l pc o (cxOf p ck B dA).r0 (!isSafe r) hvars hbl hpkl ho
   rw [hcl] at hlocL
   obtain ⟨hp1, hlocl, hnoreg⟩ := hlocL
   simp only at hp1 hlocl hnoreg
@@ -92,7 +92,7 @@ theorem operands_ok (lib : Placed p B) (Γ : Gam) (env : Env) (F D : Nat) (l r :
     simp only [List.length_append]
   have hlen3 : (c1 ++ c2 ++ c2').length = c1.length + c2.length + c2'.length := by simp only [List.length_append]
   have hlen2 : (c1 ++ c2).length = c1.length + c2.length := by simp only [List.length_append]
-  have ihl' := cE_ok (ck := ck) lib Γ env F D l pc o (cxOf p ck B).r0 (!isSafe r) m (by rw [hcl]; exact hp1_)
+  have ihl' := cE_ok (ck := ck) (dA := dA) lib Γ env F D l pc o (cxOf p ck B dA).r0 (!isSafe r) m (by rw [hcl]; exact hp1_)
     (by rw [hcl]; show pc + c1.length ≤ B; omega) (Or.inl rfl) fr hvars hbl hpkl ho
   rw [hcl] at ihl'
   simp only at ihl'
@@ -102,10 +102,10 @@ theorem operands_ok (lib : Placed p B) (Γ : Gam) (env : Env) (F D : Nat) (l r :
   · obtain ⟨m1, r1_, k1, hv1, _⟩ := ihl'.1 a hea
     have fr1 := fr.keep k1
     have hvars1 : VarsOK p.w Γ env m1 F (if p1 = true then o + p.w else o) := hvars.keep k1 (Nat.le_refl _) ho1
-    have ihr' := cE_ok (ck := ck) lib Γ env F D r (pc + c1.length) (if p1 = true then o + p.w else o) (cxOf p ck B).r1 false m1
+    have ihr' := cE_ok (ck := ck) (dA := dA) lib Γ env F D r (pc + c1.length) (if p1 = true then o + p.w else o) (cxOf p ck B dA).r1 false m1
       (by rw [hcr]; exact hp2) (by rw [hcr]; show pc + c1.length + c2.length ≤ B; omega) (Or.inr rfl) fr1 hvars1 hbr hpkr' (by omega)
-    have hlocR := cE_loc (cxOf p ck B) Γ env m1 F D r (pc + c1.length) (if p1 = true then o + p.w else o)
-      (cxOf p ck B).r1 false hvars1 hbr hpkr' (by show p.w ≤ _; omega)
+    have hlocR := cE_loc (cxOf p ck B dA) Γ env m1 F D r (pc + c1.length) (if p1 = true then o + p.w else o)
+      (cxOf p ck B dA).r1 false hvars1 hbr hpkr' (by show p.w ≤ _; omega)
     rw [hcr] at ihr' hlocR
     simp only at ihr' hlocR
     obtain ⟨hp2f, hlocr, _⟩ := hlocR
@@ -126,10 +126,10 @@ theorem operands_ok (lib : Placed p B) (Γ : Gam) (env : Env) (F D : Nat) (l r :
           simp only [Loc] at hlocl
           simp only [valOf] at hv1 ⊢
           rw [k2.read _ _ (by omega)]; exact hv1
-    have hgo2 := getOp_ok (ck := ck) (B := B) (pc := pc + (c1 ++ c2).length) hw fr2 (cxOf p ck B).r1 vr0
+    have hgo2 := getOp_ok (ck := ck) (dA := dA) (B := B) (pc := pc + (c1 ++ c2).length) hw fr2 (cxOf p ck B dA).r1 vr0
       (by show 2 * p.w ≤ 3 * p.w ∧ 3 * p.w + p.w ≤ 5 * p.w; omega)
       (hlocr.gettable (by show 3 * p.w + p.w ≤ 5 * p.w; omega)) (by rw [hg2]; exact hp2')
-    have hres2 := getOp_res (cxOf p ck B) hlocr
+    have hres2 := getOp_res (cxOf p ck B dA) hlocr
     rw [hg2] at hgo2 hres2
     obtain ⟨m3, r3_, k3, hv3, haway3, hargr⟩ := hgo2
     simp only at r3_ hv3 hargr hres2
@@ -137,7 +137,7 @@ theorem operands_ok (lib : Placed p B) (Γ : Gam) (env : Env) (F D : Nat) (l r :
     have fr3 := fr2.keep k3
     have hvl3 : valOf p.w m3 F vl = a := by
       rw [haway3 vl (hlocl.away (d := 3 * p.w) (by show 2 * p.w + p.w ≤ 3 * p.w ∨ _; omega) (Nat.le_of_eq hroom) (by omega))]; exact hvl2
-    have hgo3 := getOp_ok (ck := ck) (B := B) (pc := pc + (c1 ++ c2 ++ c2').length) hw fr3 (cxOf p ck B).r0 vl
+    have hgo3 := getOp_ok (ck := ck) (dA := dA) (B := B) (pc := pc + (c1 ++ c2 ++ c2').length) hw fr3 (cxOf p ck B dA).r0 vl
       (by show 2 * p.w ≤ 2 * p.w ∧ 2 * p.w + p.w ≤ 5 * p.w; omega)
       (hlocl.gettable (by show 2 * p.w + p.w ≤ 5 * p.w; omega)) (by rw [hg3]; exact hp3)
     rw [hg3] at hgo3
@@ -164,14 +164,14 @@ theorem operands_ok (lib : Placed p B) (Γ : Gam) (env : Env) (F D : Nat) (l r :
     · obtain ⟨m1, r1_, k1, hv1, _⟩ := ihl'.1 a hea
       have fr1 := fr.keep k1
       have hvars1 : VarsOK p.w Γ env m1 F (if p1 = true then o + p.w else o) := hvars.keep k1 (Nat.le_refl _) ho1
-      have ihr' := cE_ok (ck := ck) lib Γ env F D r (pc + c1.length) (if p1 = true then o + p.w else o) (cxOf p ck B).r1 false m1
+      have ihr' := cE_ok (ck := ck) (dA := dA) lib Γ env F D r (pc + c1.length) (if p1 = true then o + p.w else o) (cxOf p ck B dA).r1 false m1
         (by rw [hcr]; exact hp2) (by rw [hcr]; show pc + c1.length + c2.length ≤ B; omega) (Or.inr rfl) fr1 hvars1 hbr hpkr' (by omega)
       obtain ⟨m', rd⟩ := ihr'.2 heb hck
       exact ⟨m', by simpa using r1_.trans rd⟩
 
 
 theorem ev_arg_any (hw : 2 ≤ p.w) {m : Mem} {F D : Nat} (fr : Fr p m F D) (pc : Nat) (v : Opd) (h : IsArg p.w v) :
-    evalArg p ⟨pc, m⟩ (v.arg (cxOf p ck B)) = some (valOf p.w m F v) := by
+    evalArg p ⟨pc, m⟩ (v.arg (cxOf p ck B dA)) = some (valOf p.w m F v) := by
   cases v with
   | imm i => exact ev_opd ck B hw fr _ trivial
   | reg a => exact ev_opd ck B hw fr _ (by simpa [IsArg] using h)
@@ -179,13 +179,13 @@ theorem ev_arg_any (hw : 2 ≤ p.w) {m : Mem} {F D : Nat} (fr : Fr p m F D) (pc 
 
 theorem cB_ok (lib : Placed p B) (Γ : Gam) (env : Env) (F D : Nat) :
     ∀ (b : Core.B) (pc o : Nat) (tT tF : Option Nat) (m : Mem),
-      PlacedAt p pc (cB (cxOf p ck B) Γ pc o b (brCode tT) (brCode tF)) →
-      pc + (cB (cxOf p ck B) Γ pc o b (brCode tT) (brCode tF)).length ≤ B →
+      PlacedAt p pc (cB (cxOf p ck B dA) Γ pc o b (brCode tT) (brCode tF)) →
+      pc + (cB (cxOf p ck B dA) Γ pc o b (brCode tT) (brCode tF)).length ≤ B →
       (∀ x, tT = some x → x < 256 ^ p.w) → (∀ x, tF = some x → x < 256 ^ p.w) →
       Fr p m F D → VarsOK p.w Γ env m F o → boundB (Γ.map Prod.fst) b = true → pkB p.w o b ≤ D → p.w ≤ o →
       (∀ bv, evalB (256 ^ p.w) (8 * p.w) env b = some bv →
         ∃ m', Reach (sphinx p) ⟨pc, m⟩ []
-            ⟨(if bv then tT else tF).getD (pc + (cB (cxOf p ck B) Γ pc o b (brCode tT) (brCode tF)).length), m'⟩ ∧
+            ⟨(if bv then tT else tF).getD (pc + (cB (cxOf p ck B dA) Γ pc o b (brCode tT) (brCode tF)).length), m'⟩ ∧
           Keep p.w m m' (F - o)) ∧
       (evalB (256 ^ p.w) (8 * p.w) env b = none → ck = true →
         ∃ m', Reach (sphinx p) ⟨pc, m⟩ [] ⟨B + off_division_by_zero, m'⟩) := by
@@ -237,9 +237,9 @@ theorem cB_ok (lib : Placed p B) (Γ : Gam) (env : Env) (F D : Nat) :
     generalize hnL : lenB ck l 2 (if tF.isSome = true then (brCode tF).length else (brCode tF).length + 2) true true = nL at *
     generalize hnR : lenB ck r (brCode tT).length (brCode tF).length tT.isSome tF.isSome = nR at *
     rw [show goto (pc + nL) = brCode (some (pc + nL)) from rfl] at hpl hB ⊢
-    have hlenL : (cB (cxOf p ck B) Γ pc o l (brCode (some (pc + nL))) (brCode (some (tF.getD (pc + nL + nR))))).length = nL := by
+    have hlenL : (cB (cxOf p ck B dA) Γ pc o l (brCode (some (pc + nL))) (brCode (some (tF.getD (pc + nL + nR))))).length = nL := by
       rw [cB_len]; rw [← hnL]; cases tF <;> simp [brCode]
-    have hlenR : (cB (cxOf p ck B) Γ (pc + nL) o r (brCode tT) (brCode tF)).length = nR := by
+    have hlenR : (cB (cxOf p ck B dA) Γ (pc + nL) o r (brCode tT) (brCode tF)).length = nR := by
       rw [cB_len]; rw [← hnR]; simp
     obtain ⟨hplL, hplR⟩ := hpl.append
     rw [hlenL] at hplR
@@ -305,9 +305,9 @@ theorem cB_ok (lib : Placed p B) (Γ : Gam) (env : Env) (F D : Nat) :
     generalize hnL : lenB ck l (if tT.isSome = true then (brCode tT).length else (brCode tT).length + 2) 2 true true = nL at *
     generalize hnR : lenB ck r (brCode tT).length (brCode tF).length tT.isSome tF.isSome = nR at *
     rw [show goto (pc + nL) = brCode (some (pc + nL)) from rfl] at hpl hB ⊢
-    have hlenL : (cB (cxOf p ck B) Γ pc o l (brCode (some (tT.getD (pc + nL + nR)))) (brCode (some (pc + nL)))).length = nL := by
+    have hlenL : (cB (cxOf p ck B dA) Γ pc o l (brCode (some (tT.getD (pc + nL + nR)))) (brCode (some (pc + nL)))).length = nL := by
       rw [cB_len]; rw [← hnL]; cases tT <;> simp [brCode]
-    have hlenR : (cB (cxOf p ck B) Γ (pc + nL) o r (brCode tT) (brCode tF)).length = nR := by
+    have hlenR : (cB (cxOf p ck B dA) Γ (pc + nL) o r (brCode tT) (brCode tF)).length = nR := by
       rw [cB_len]; rw [← hnR]; simp
     obtain ⟨hplL, hplR⟩ := hpl.append
     rw [hlenL] at hplR
@@ -362,17 +362,17 @@ theorem cB_ok (lib : Placed p B) (Γ : Gam) (env : Env) (F D : Nat) :
     intro pc o tT tF m hpl hB htT htF fr hvars hb hpk ho
     simp only [boundB, Bool.and_eq_true] at hb
     simp only [pkB] at hpk
-    rcases hcl : cE (cxOf p ck B) Γ pc o (cxOf p ck B).r0 l (!isSafe r) with ⟨c1, vl, p1⟩
-    rcases hcr : cE (cxOf p ck B) Γ (pc + c1.length) (if p1 = true then o + (cxOf p ck B).w else o) (cxOf p ck B).r1 r false
+    rcases hcl : cE (cxOf p ck B dA) Γ pc o (cxOf p ck B dA).r0 l (!isSafe r) with ⟨c1, vl, p1⟩
+    rcases hcr : cE (cxOf p ck B dA) Γ (pc + c1.length) (if p1 = true then o + (cxOf p ck B dA).w else o) (cxOf p ck B dA).r1 r false
       with ⟨c2, vr0, p2⟩
-    rcases hg2 : getOp (cxOf p ck B) (cxOf p ck B).r1 vr0 with ⟨c2', vr⟩
-    rcases hg3 : getOp (cxOf p ck B) (cxOf p ck B).r0 vl with ⟨c3, vl'⟩
-    have hcode : cB (cxOf p ck B) Γ pc o (.cmp op l r) (brCode tT) (brCode tF)
+    rcases hg2 : getOp (cxOf p ck B dA) (cxOf p ck B dA).r1 vr0 with ⟨c2', vr⟩
+    rcases hg3 : getOp (cxOf p ck B dA) (cxOf p ck B dA).r0 vl with ⟨c3, vl'⟩
+    have hcode : cB (cxOf p ck B dA) Γ pc o (.cmp op l r) (brCode tT) (brCode tF)
         = (c1 ++ c2 ++ c2' ++ c3) ++
           [.j (.imm (pc + (c1 ++ c2 ++ c2' ++ c3).length + 4)),
-           .hcond (cmpHalt op) (vl'.arg (cxOf p ck B)) (vr.arg (cxOf p ck B)),
+           .hcond (cmpHalt op) (vl'.arg (cxOf p ck B dA)) (vr.arg (cxOf p ck B dA)),
            .j (.imm (tF.getD (pc + (c1 ++ c2 ++ c2' ++ c3).length + 5 + (brCode tT).length))), .halt,
-           .hcond (invHalt op) (vl'.arg (cxOf p ck B)) (vr.arg (cxOf p ck B))] ++ brCode tT := by
+           .hcond (invHalt op) (vl'.arg (cxOf p ck B dA)) (vr.arg (cxOf p ck B dA))] ++ brCode tT := by
       simp only [cB, hcl, hcr, hg2, hg3, endsGoto_brCode]
       cases tF <;> simp [brCode, goto, Nat.add_assoc]
     rw [hcode] at hpl hB ⊢
@@ -380,12 +380,12 @@ theorem cB_ok (lib : Placed p B) (Γ : Gam) (env : Env) (F D : Nat) :
     obtain ⟨hpl12, hplT⟩ := hpl.append
     obtain ⟨hplP, hplJ⟩ := hpl12.append
     have hlen : (pre ++ [Instr.j (.imm (pc + pre.length + 4)),
-           .hcond (cmpHalt op) (vl'.arg (cxOf p ck B)) (vr.arg (cxOf p ck B)),
+           .hcond (cmpHalt op) (vl'.arg (cxOf p ck B dA)) (vr.arg (cxOf p ck B dA)),
            .j (.imm (tF.getD (pc + pre.length + 5 + (brCode tT).length))), .halt,
-           .hcond (invHalt op) (vl'.arg (cxOf p ck B)) (vr.arg (cxOf p ck B))] ++ brCode tT).length
+           .hcond (invHalt op) (vl'.arg (cxOf p ck B dA)) (vr.arg (cxOf p ck B dA))] ++ brCode tT).length
         = pre.length + 5 + (brCode tT).length := by simp [List.length_append]; omega
     rw [hlen] at hB ⊢
-    have hops := operands_ok (ck := ck) lib Γ env F D l r pc o m c1 vl p1 hcl c2 vr0 p2 hcr c2' vr hg2 c3 vl' hg3
+    have hops := operands_ok (ck := ck) (dA := dA) lib Γ env F D l r pc o m c1 vl p1 hcl c2 vr0 p2 hcr c2' vr hg2 c3 vl' hg3
       (by rw [hpre]; exact hplP) (by rw [hpre]; omega) fr hvars hb.1 hb.2 (by omega) (by omega) ho
     rw [hpre] at hops
     refine ⟨fun bv hbv => ?_, fun hn hck => ?_⟩
@@ -451,11 +451,11 @@ timeline) exactly when the condition is true, and falls through when it is false
 theorem cD_ok (lib : Placed p B) (Γ : Gam) (env : Env) (F D : Nat) :
     ∀ (b : Core.B) (pc o : Nat) (m : Mem),
       isD b = true →
-      PlacedAt p pc (cD (cxOf p ck B) Γ pc o b) →
-      pc + (cD (cxOf p ck B) Γ pc o b).length ≤ B →
+      PlacedAt p pc (cD (cxOf p ck B dA) Γ pc o b) →
+      pc + (cD (cxOf p ck B dA) Γ pc o b).length ≤ B →
       Fr p m F D → VarsOK p.w Γ env m F o → boundB (Γ.map Prod.fst) b = true → pkB p.w o b ≤ D → p.w ≤ o →
       (evalB (256 ^ p.w) (8 * p.w) env b = some false →
-        ∃ m', Reach (sphinx p) ⟨pc, m⟩ [] ⟨pc + (cD (cxOf p ck B) Γ pc o b).length, m'⟩ ∧ Keep p.w m m' (F - o)) ∧
+        ∃ m', Reach (sphinx p) ⟨pc, m⟩ [] ⟨pc + (cD (cxOf p ck B dA) Γ pc o b).length, m'⟩ ∧ Keep p.w m m' (F - o)) ∧
       (evalB (256 ^ p.w) (8 * p.w) env b = some true → Halts (sphinx p) ⟨pc, m⟩) ∧
       (evalB (256 ^ p.w) (8 * p.w) env b = none → ck = true →
         ∃ m', Reach (sphinx p) ⟨pc, m⟩ [] ⟨B + off_division_by_zero, m'⟩) := by
@@ -492,7 +492,7 @@ theorem cD_ok (lib : Placed p B) (Γ : Gam) (env : Env) (F D : Nat) :
         | false =>
           simp only [hv, Option.bind_some, Bool.false_eq_true, if_false] at hf
           obtain ⟨m1, r1, k1⟩ := h1.1 hv
-          have h2 := ihr (pc + (cD (cxOf p ck B) Γ pc o l).length) o m1 hd.2 hpl2 (by omega) (fr.keep k1)
+          have h2 := ihr (pc + (cD (cxOf p ck B dA) Γ pc o l).length) o m1 hd.2 hpl2 (by omega) (fr.keep k1)
             (hvars.keep k1 (Nat.le_refl _) (Nat.le_refl _)) hb.2 (by omega) ho
           obtain ⟨m2, r2, k2⟩ := h2.1 hf
           exact ⟨m2, by simpa [Nat.add_assoc] using r1.trans r2, k1.trans' k2⟩
@@ -505,7 +505,7 @@ theorem cD_ok (lib : Placed p B) (Γ : Gam) (env : Env) (F D : Nat) :
         | false =>
           simp only [hv, Option.bind_some, Bool.false_eq_true, if_false] at ht
           obtain ⟨m1, r1, k1⟩ := h1.1 hv
-          have h2 := ihr (pc + (cD (cxOf p ck B) Γ pc o l).length) o m1 hd.2 hpl2 (by omega) (fr.keep k1)
+          have h2 := ihr (pc + (cD (cxOf p ck B dA) Γ pc o l).length) o m1 hd.2 hpl2 (by omega) (fr.keep k1)
             (hvars.keep k1 (Nat.le_refl _) (Nat.le_refl _)) hb.2 (by omega) ho
           exact r1.1 (h2.2.1 ht)
     · simp only [evalB, Option.bind_eq_bind] at hn
@@ -517,7 +517,7 @@ theorem cD_ok (lib : Placed p B) (Γ : Gam) (env : Env) (F D : Nat) :
         | false =>
           simp only [hv, Option.bind_some, Bool.false_eq_true, if_false] at hn
           obtain ⟨m1, r1, k1⟩ := h1.1 hv
-          have h2 := ihr (pc + (cD (cxOf p ck B) Γ pc o l).length) o m1 hd.2 hpl2 (by omega) (fr.keep k1)
+          have h2 := ihr (pc + (cD (cxOf p ck B dA) Γ pc o l).length) o m1 hd.2 hpl2 (by omega) (fr.keep k1)
             (hvars.keep k1 (Nat.le_refl _) (Nat.le_refl _)) hb.2 (by omega) ho
           obtain ⟨m2, r2⟩ := h2.2.2 hn hck
           exact ⟨m2, by simpa using r1.trans r2⟩
@@ -525,19 +525,19 @@ theorem cD_ok (lib : Placed p B) (Γ : Gam) (env : Env) (F D : Nat) :
     intro pc o m _ hpl hB fr hvars hb hpk ho
     simp only [boundB, Bool.and_eq_true] at hb
     simp only [pkB] at hpk
-    rcases hcl : cE (cxOf p ck B) Γ pc o (cxOf p ck B).r0 l (!isSafe r) with ⟨c1, vl, p1⟩
-    rcases hcr : cE (cxOf p ck B) Γ (pc + c1.length) (if p1 = true then o + (cxOf p ck B).w else o) (cxOf p ck B).r1 r false
+    rcases hcl : cE (cxOf p ck B dA) Γ pc o (cxOf p ck B dA).r0 l (!isSafe r) with ⟨c1, vl, p1⟩
+    rcases hcr : cE (cxOf p ck B dA) Γ (pc + c1.length) (if p1 = true then o + (cxOf p ck B dA).w else o) (cxOf p ck B dA).r1 r false
       with ⟨c2, vr0, p2⟩
-    rcases hg2 : getOp (cxOf p ck B) (cxOf p ck B).r1 vr0 with ⟨c2', vr⟩
-    rcases hg3 : getOp (cxOf p ck B) (cxOf p ck B).r0 vl with ⟨c3, vl'⟩
-    have hcode : cD (cxOf p ck B) Γ pc o (.cmp op l r)
-        = (c1 ++ c2 ++ c2' ++ c3) ++ [.hcond (cmpHalt op) (vl'.arg (cxOf p ck B)) (vr.arg (cxOf p ck B))] := by
+    rcases hg2 : getOp (cxOf p ck B dA) (cxOf p ck B dA).r1 vr0 with ⟨c2', vr⟩
+    rcases hg3 : getOp (cxOf p ck B dA) (cxOf p ck B dA).r0 vl with ⟨c3, vl'⟩
+    have hcode : cD (cxOf p ck B dA) Γ pc o (.cmp op l r)
+        = (c1 ++ c2 ++ c2' ++ c3) ++ [.hcond (cmpHalt op) (vl'.arg (cxOf p ck B dA)) (vr.arg (cxOf p ck B dA))] := by
       simp only [cD, hcl, hcr, hg2, hg3]
     rw [hcode] at hpl hB ⊢
     generalize hpre : c1 ++ c2 ++ c2' ++ c3 = pre at *
     obtain ⟨hplP, hplH⟩ := hpl.append
     simp only [List.length_append, List.length_cons, List.length_nil] at hB ⊢
-    have hops := operands_ok (ck := ck) lib Γ env F D l r pc o m c1 vl p1 hcl c2 vr0 p2 hcr c2' vr hg2 c3 vl' hg3
+    have hops := operands_ok (ck := ck) (dA := dA) lib Γ env F D l r pc o m c1 vl p1 hcl c2 vr0 p2 hcr c2' vr hg2 c3 vl' hg3
       (by rw [hpre]; exact hplP) (by rw [hpre]; omega) fr hvars hb.1 hb.2 (by omega) (by omega) ho
     rw [hpre] at hops
     have key : ∀ a b, evalE (256 ^ p.w) (8 * p.w) env l = some a → evalE (256 ^ p.w) (8 * p.w) env r = some b →
